@@ -355,8 +355,10 @@ register("C11", {
             "headers incl. case-insensitive collisions with request headers x origins (names, "
             "IPv4, IPv6 literal; http/https; default/explicit ports) x request header lists and "
             "bodies x proxy replies (CONNECT: 2xx, 1xx-then-2xx, 101, 3xx-5xx with and without "
-            "body; SOCKS: any method answer, auth status, reply code) x segmentation; oracle = "
+            "body; SOCKS: any method answer, auth status, reply code) x segmentation; in the asyncio "
+            "family half of the runs add 2-3 concurrent callers that race for the connection the "
+            "first caller has left idle (double assignment, ConnectionNotAvailable retries); oracle = "
             "the proxy peer's independent parse of each hop; all runs non-trivial",
-    "assumptions": ["single caller (concurrency is C01's)"],
+    "assumptions": ["the thread family is single-caller"],
 }, [ProxyFamily("proxy-hops-async", "asyncio", 3000, 60000),
     ProxyFamily("proxy-hops-threads", "threads", 600, 12000)])
